@@ -18,8 +18,20 @@ TYPES = {"A": A, "B": B, "C": C}
 
 
 # ----------------------------------------------------------- sequential reference (list buffer)
-def reference(expected: list[str], arrivals: list[tuple[str, int]]) -> tuple[tuple[int, ...], ...]:
-    buf: list[tuple[str, int]] = []
+def tokens(arrivals: list[tuple[str, int]]) -> list[tuple[str, str]]:
+    """(type, label): value-equal arrivals (same type and uid) get distinct labels A1, A1', ..."""
+    seen: Counter = Counter()
+    out = []
+    for t, uid in arrivals:
+        out.append((t, f"{t}{uid}" + "'" * seen[(t, uid)]))
+        seen[(t, uid)] += 1
+    return out
+
+
+def reference(expected: list[str], arrivals: list[tuple[str, Any]]) -> tuple[tuple[int, ...], ...]:
+    if arrivals and isinstance(arrivals[0][1], int):
+        arrivals = tokens(arrivals)  # type: ignore[arg-type]
+    buf: list[tuple[str, Any]] = []
     out = []
     for ev in arrivals:
         remaining = Counter(expected) - Counter(t for t, _ in buf)
@@ -29,7 +41,7 @@ def reference(expected: list[str], arrivals: list[tuple[str, int]]) -> tuple[tup
             for t in expected:
                 i = next(i for i, x in enumerate(pool) if x[0] == t)
                 x = pool.pop(i)
-                lst.append(f"{x[0]}{x[1]}")
+                lst.append(x[1])
             out.append(tuple(lst))
             buf = []
         elif ev[0] in remaining:
@@ -38,7 +50,7 @@ def reference(expected: list[str], arrivals: list[tuple[str, int]]) -> tuple[tup
 
 
 def valid_outcomes(expected: list[str], arrivals: list[tuple[str, int]]) -> set[Any]:
-    return {reference(expected, list(p)) for p in itertools.permutations(arrivals)}
+    return {reference(expected, list(p)) for p in itertools.permutations(tokens(arrivals))}
 
 
 # ------------------------------------------------------------------------------ the program
@@ -52,16 +64,19 @@ def execute(ex: Execution, expected: list[str], arrivals: list[tuple[str, int]],
         exp_types = [TYPES[t] for t in expected]
         acc = sorted({t for t in expected})
 
+        evs = [TYPES[t](uid=uid) for t, uid in arrivals]
+        label_of = {id(x): lab for x, (_, lab) in zip(evs, tokens(arrivals))}
+
         async def start(self, ctx, ev, inv):  # noqa: ANN001
-            for t, uid in arrivals:
-                ctx.send_event(TYPES[t](uid=uid))
+            for x in evs:
+                ctx.send_event(x)
             return None
 
         async def coll(self, ctx, ev, inv):  # noqa: ANN001
-            await gate(f"c{type(ev).__name__}{ev.uid}")
+            await gate(f"c{label_of.get(id(ev), type(ev).__name__ + str(ev.uid))}")
             r = ctx.collect_events(ev, exp_types)
             if r is not None:
-                inv.info["returned"] = tuple(f"{type(x).__name__}{x.uid}" for x in r)
+                inv.info["returned"] = tuple(label_of.get(id(x), f"{type(x).__name__}{x.uid}?copy") for x in r)
                 inv.info["types"] = [type(x).__name__ for x in r]
                 if fail_once and inv.retry.retry_number == 0:
                     raise RuntimeError("fails after collecting; the retry must get the same set again")
@@ -77,6 +92,8 @@ def execute(ex: Execution, expected: list[str], arrivals: list[tuple[str, int]],
         e.drive()  # ends when nothing is enabled any more (the run idles: there is no StopEvent)
         v: list[Any] = []
         wit = {"expected": "".join(expected), "workers": ("1" if w == 1 else ">1")}
+        if len(set(arrivals)) < len(arrivals):
+            wit["value_equal_arrivals"] = True
         # a list is really "returned" only when the invocation that computed it completed (its result tick
         # was processed); with stale-snapshot re-runs the same invocation is re-executed and only the last counts
         done_ticks = [t for t in h.ticks if getattr(t, "type", "") == "step_result" and t.step_name == "coll"]
@@ -113,6 +130,10 @@ def programs(tier: str) -> list[Program]:
         (["A", "A", "B"], [("A", 1), ("B", 1), ("A", 2), ("A", 3)]),
         (["A", "B", "C"], [("C", 1), ("A", 1), ("B", 1)]),
         (["A", "B", "C"], [("A", 1), ("B", 1), ("C", 1), ("A", 2)]),
+        # value-equal events (same type, same fields) are still two events
+        (["A", "A", "B"], [("A", 1), ("A", 1), ("B", 1)]),
+        (["A", "A"], [("A", 1), ("A", 1), ("A", 1), ("A", 1)]),
+        (["A", "A"], [("A", 1), ("A", 2), ("A", 3), ("A", 4)]),
     ]
     if not q:
         cases += [
@@ -139,7 +160,8 @@ def programs(tier: str) -> list[Program]:
     return ps
 
 
-RULE = ("expected lists [A,B], [A,A,B], [A,B,C] x arrival multisets with surplus events and two rounds x collector "
+RULE = ("expected lists [A,B], [A,A,B], [A,B,C], [A,A] x arrival multisets with surplus events, value-equal events and two "
+        "rounds x collector "
         "num_workers 1..3(4) x every order in which the collecting invocations complete; the multiset of returned "
         "lists must equal the list-buffer reference on some serial order of the same arrivals, no event may be in "
         "two lists; num_workers=1 runs bind the reference to the implementation; non-trivial = at least one "
